@@ -500,8 +500,8 @@ def run(ctx):
 def search(ctx):
     cases = gen.lattice_cases("thorough", ctx.seed + 1, exhaustive=(ctx.tier != "quick"))
     if ctx.tier == "quick":
-        cases = cases[:500]
-    evaluate(ctx, cases, "search", n_u=4, exhaustive_max=12, exhaustive_cap=40, max_moves=80)
+        cases = cases[:150]
+    evaluate(ctx, cases + small_closed_cases("thorough", ctx.seed + 1), "search", n_u=4, exhaustive_max=12, exhaustive_cap=40, max_moves=40)
 
 
 def replay(ctx, payload):
